@@ -933,7 +933,7 @@ fn main() {
     };
     let mut rep = Report::new(&opts, level, rule);
     let scratch = Scratch::new("walkparent");
-    let runs = if prop == "C07" { opts.cases(60_000, 6_000_000) } else { opts.cases(40_000, 2_500_000) };
+    let runs = if prop == "C07" { opts.cases(150_000, 6_000_000) } else { opts.cases(100_000, 2_500_000) };
     let jobs = opts.jobs.max(1);
     let main = fan_out(&opts, "main", runs, 0, jobs, scratch.path(), "m", opts.budget_s());
     // Determinism self-test: re-run a sample of the same sub-seeds in other
